@@ -592,6 +592,22 @@ def _wrapped_rfog(graph, fn, *, worker_count=None, max_errors=0, scheduler=None)
 
     def fn2(node):
         w = s.current()
+        if w.widx is None:
+            # `fn` is being run by a thread that is not one of this invocation's workers (e.g. by the calling thread): the
+            # engine model has no such step.  Run it, record the raw events, and mark the trace: the trace replay reports it
+            # as a broken correspondence; monitors that only look at the events go on working.
+            tr.off_model = "a node function ran on a thread that is not a worker of this run_function_on_graph call"
+            x = tr.ids.get(node)
+            tr.events.append(("begin", None, x))
+            s.begins += 1
+            try:
+                fn(node)
+            except BaseException as e:
+                if not isinstance(e, Abort):
+                    tr.events.append(("endfail", None, x, e))
+                raise
+            tr.events.append(("endok", None, x))
+            return
         s.flush_pending(w)            # check (stop was read just before, no primitive in between)
         x = tr.ids.get(node)
         tr.events.append(("begin", w.widx, x))
